@@ -594,8 +594,8 @@ def check(run):
     run.rule("R14.3", "every non-None store of a gradient discharges a dtype obligation (cast / comparison / dtype=) and a shape obligation "
              "(assert / provenance); a provable shape mismatch (SLICE_OF the incoming grad stored for the op's own output) is a violation", floor=14)
     run.rule("R14.4", "values that may be NumPy scalars pass np.asarray before being stored", floor=3)
-    r14_1(run)
-    r14_2(run)
-    r14_3(run)
+    run.do(r14_1)
+    run.do(r14_2)
+    run.do(r14_3)
     run.rule("R14.5", "an in-place change of a tensor's array shape restores it or drops the tensor's gradient", floor=2)
-    r14_5(run)
+    run.do(r14_5)
